@@ -52,4 +52,11 @@ PROPS = {
         rule="Seeded sequences of shard reports (1-5 shards, duplicates, any order) over 2 tasks x 1-3 messages interleaved with removals and reloads (new ReplicateMeteImpl over the same store = crash point).",
         assumptions=["rig ST: real meta.ReplicateMeteImpl over the real etcd / MySQL replicate stores (on SimEtcd / SimSQL) or an in-memory store"],
     ),
+    "C14": dict(
+        rig="P", runs=dict(quick=3000, thorough=100000),
+        nontrivial_probes=["batch_of_several", "all_empty_checked"],
+        must_hit=["batch_of_several", "all_empty_checked", "clear"],
+        rule="1-3 batchers sharing the global memory budget, each driven by its own goroutine through a seeded list of packs (sizes 0..6000 bytes) and shutdown flushes; thresholds (count, size, age, global memory) randomised per run; the scheduler interleaves receives, parked callbacks (with injected failures) and clock advances of 10 ms..10 s.",
+        assumptions=["rig P: real msgpacker.Packer, checkers and the global MemoryProtector inside a synctest bubble; the write callback is scripted"],
+    ),
 }
